@@ -55,6 +55,8 @@ class CallMixin:
       raise Unsupported('class %s is not bound to a sort' % cref.name)
     if b[0] in ('adt', 'rec'):
       fields = cref.module.dataclass_fields(cref.name)
+      if not fields:
+        fields = cref.module.init_fields(cref.name)
       names = [f for f, _ in fields]
       if b[0] == 'adt':
         adt, ctor = b[1], b[2] or cref.name
@@ -208,6 +210,9 @@ class CallMixin:
         raise ContractMisfit('%s: parameter %s missing at call' % (c.label, pn))
       v = bound[pn]
       if isinstance(ps, S.Sort):
+        from engine.execcomp import Gen
+        if isinstance(v, Gen) and isinstance(ps, S.Seq):
+          v = self.comp_list(v)
         v = self.coerce(v, ps)
       env[pn] = v
     saved_env, saved_mod = self.env, self.cur_module
@@ -227,7 +232,14 @@ class CallMixin:
       if c.result is None:
         res = NONE
       elif isinstance(c.result, S.Sort):
-        res = V(c.result, c.result.fresh('res_' + c.qualname.split('.')[-1]))
+        bvars = [v for vs, _ in self.binders for v in vs]
+        if bvars:
+          # inside a comprehension/quantifier: the result depends on the bound variables
+          fname = z3.FreshConst(z3.IntSort(), 'sk_' + c.qualname.split('.')[-1]).decl().name()
+          f = z3.Function(fname, *([v.sort() for v in bvars] + [c.result.z3()]))
+          res = V(c.result, f(*bvars))
+        else:
+          res = V(c.result, c.result.fresh('res_' + c.qualname.split('.')[-1]))
         self.assume_wf(res)
       else:
         raise Unsupported('contract result kind')
@@ -367,6 +379,8 @@ class CallMixin:
 
   def iter_to_seq(self, it, node):
     """Ghost sequence enumerating an iterable (arbitrary order for sets/dicts)."""
+    if isinstance(it, V) and it.sort.name in self.theory.as_set:
+      it = self.theory.as_set[it.sort.name](self, it)
     if isinstance(it, V):
       s = it.sort
       if isinstance(s, S.Seq):
